@@ -112,6 +112,10 @@ pub fn pos_history(_args: &[String]) -> String {
                     return format!("{{\"found\": true, \"clause\": \"C07/C04 is_finished() is true from finish / abandon until the next reset\", \"input\": {{\"visible\": {}, \"history\": {}, \"expected\": \"is_finished {}\", \"got\": \"is_finished {}\"}}, \"rerun\": \"replay pos_history\"}}",
                         visible, crate::jlist(&hist), fin, pb.is_finished());
                 }
+                if op >= 13 && pb.position() != pos {
+                    return format!("{{\"found\": true, \"clause\": \"C07/C04 finish moves the position to the length (whatever it was before), abandon leaves it\", \"input\": {{\"visible\": {}, \"history\": {}, \"expected\": \"position {} length {:?}\", \"got\": \"position {} length {:?}\"}}, \"rerun\": \"replay pos_history\"}}",
+                        visible, crate::jlist(&hist), pos, len, pb.position(), pb.length());
+                }
                 if pb.position() != pos || pb.length() != len {
                     return format!("{{\"found\": true, \"clause\": \"C07 position() is defined by the history of inc/dec/set_position/reset/finish (wrapping), length() by set_length/inc_length/dec_length/unset_length (saturating)\", \"input\": {{\"visible\": {}, \"history\": {}, \"expected\": \"position {} length {:?}\", \"got\": \"position {} length {:?}\"}}, \"rerun\": \"replay pos_history\"}}",
                         visible, crate::jlist(&hist), pos, len, pb.position(), pb.length());
